@@ -455,6 +455,20 @@ func (c *gen) bait() (*Expr, bool) {
 		}
 		return e, false
 	}
+	if c.chance(6, "mixedcasebait") {
+		// a class without the i flag whose members have no case but whose range holds letters of
+		// one case, next to a class with the flag: [ -_] / [é]i (no reading of "same kind" or
+		// "caseless" lets the two be one class)
+		a := &Expr{K: KClass, Ranges: Pick(c.t, [][]rune{{' ', '_'}, {'[', '~'}, {' ', '@', '[', '~'}, {'!', '`'}}, "mcrange")}
+		if c.chance(40, "mcchar") {
+			a.Chars = []rune{Pick(c.t, []rune{'0', '_', ' ', '日'}, "mcchar1")}
+		}
+		b := &Expr{K: KClass, IC: true, Chars: []rune{Pick(c.t, []rune{'é', 'b', 'É', 'K'}, "mcchar2")}}
+		if c.chance(50, "mcorder") {
+			a, b = b, a
+		}
+		return &Expr{K: KChoice, Sub: []*Expr{a, b}}, false
+	}
 	switch c.intn(0, 4, "baitkind") {
 	case 4:
 		// classes whose ranges share an end point, side by side
